@@ -1,5 +1,6 @@
 import CacheModel.DriverBackend
 import CacheModel.DriverMisc
+import CacheModel.DriverFailover
 
 /- Driver entry: one request per line on stdin, one reply per line on stdout. `bad-op` for anything malformed. -/
 open Cache Cache.Drv
@@ -8,6 +9,7 @@ structure DState where
   be : Std.HashMap String Inst := {}
   iv : Std.HashMap String IvInst := {}
   ix : Std.HashMap String IdxState := {}
+  fo : Std.HashMap String FoInst := {}
 
 def handle (st : DState) (line : String) : DState × String :=
   let toks := (line.trimAscii.toString.splitOn " ").filter (· != "")
@@ -33,6 +35,17 @@ def handle (st : DState) (line : String) : DState × String :=
       let (i', out) := ivCall i ncb t0 t1 obs
       ({ st with iv := st.iv.insert id i' }, out)
     | _, _, _, _ => (st, "bad-op")
+  | "fo" :: "new" :: id :: rest =>
+    match foNew (kvArgs rest) with
+    | some i => ({ st with fo := st.fo.insert id i }, "ok")
+    | none => (st, "bad-op")
+  | "fo" :: op :: id :: rest =>
+    match st.fo[id]? with
+    | none => (st, "bad-op no-such-instance")
+    | some i =>
+      match foStep i op rest with
+      | some (i', out) => ({ st with fo := st.fo.insert id i' }, out)
+      | none => (st, "bad-op")
   | ["ix", "new", id] => ({ st with ix := st.ix.insert id {} }, "ok")
   | "ix" :: op :: id :: rest =>
     match st.ix[id]? with
